@@ -203,6 +203,58 @@ def covariance_rule(ctx, p, K):
         ctx.ob(rule, f"{c.key}.{name}", ok, where=c.lookup(name), node=None, construct=repr(v)[:160], message=f"expected shifts {tuple(map(repr, shifts))} under translation of the origin")
 
 
+def raw_origin_rule(ctx, p):
+    """an origin read as `<X>.origin` that enters a sum directly (not through a coordinate util): a sum of kinds is a point of the parent's frame only when the origin
+    counts +1 in it; it may count -1 only against a point (the difference is then a displacement).  Scaled origins (inside a product) belong to the util layer and
+    are judged by C12.covariance; only the purely additive uses are decided here."""
+    rule = "C12.kind"
+
+    def is_origin(e):
+        while True:
+            if isinstance(e, ast.Call) and norm_text(e.func) in ("np.array", "np.asarray", "numpy.array", "numpy.asarray") and len(e.args) == 1:
+                e = e.args[0]
+            elif isinstance(e, ast.Subscript):
+                e = e.value
+            else:
+                break
+        return isinstance(e, ast.Attribute) and e.attr == "origin"
+    n_sites = 0
+    for f in p.all_functions():
+        if f.module.name.startswith(("autoarray.plot", "autoarray.fixtures")) or ".mock" in f.module.name:
+            continue
+        tops = []
+        inner = set()
+        for n in f.body_nodes():
+            if isinstance(n, ast.BinOp) and isinstance(n.op, (ast.Add, ast.Sub)) and id(n) not in inner:
+                for sub in ast.walk(n):
+                    if sub is not n and isinstance(sub, ast.BinOp) and isinstance(sub.op, (ast.Add, ast.Sub)):
+                        # only the sub-sums that are direct additive operands belong to this chain
+                        pass
+                tops.append(n)
+                stack = [n.left, n.right]
+                while stack:
+                    q = stack.pop()
+                    if isinstance(q, ast.UnaryOp) and isinstance(q.op, ast.USub):
+                        stack.append(q.operand)
+                    elif isinstance(q, ast.BinOp) and isinstance(q.op, (ast.Add, ast.Sub)):
+                        inner.add(id(q))
+                        stack.extend([q.left, q.right])
+        for top in tops:
+            if id(top) in inner:
+                continue
+            terms = geom._terms(top)
+            os_ = [(sg, t) for sg, t in terms if is_origin(t)]
+            if not os_:
+                continue
+            n_sites += 1
+            coef = sum(sg for sg, _ in os_)
+            others = [t for sg, t in terms if not is_origin(t) and sg == 1]
+            ok = coef == 1 or (coef == -1 and any(geom.expr_is_point(f, wire.inline_locals(f, t)) or geom.point_kind(t, f)[0] for t in others)) or (coef == 0 and len(os_) == 2)
+            ctx.ob(rule, f"{f.key}:raw-origin@{norm_text(os_[0][1])}", ok, where=f, node=top, construct=norm_text(top)[:200],
+                   message="an origin added to displacements gives a coordinate of the parent's frame only when it counts exactly +1 in the sum (translating the origin by d must translate the result by d, not -d or 2d); it may be subtracted only from a point")
+    ctx.require_count(rule, "sums an origin attribute enters directly", n_sites, 8)
+
+
 def derived_rule(ctx, p):
     """specific derived objects named by the property re-pass the parent's geometry"""
     rule = "C12.derived"
@@ -339,6 +391,7 @@ def run(ctx):
     covariance_rule(ctx, p, K)
     extrema_rule(ctx, p)
     derived_rule(ctx, p)
+    raw_origin_rule(ctx, p)
 
 
 _G = "autoarray/structures/grids/uniform_2d.py"
@@ -355,5 +408,7 @@ CONTROLS = [
     Control("twin: padded grid keyword order swapped", _G, in_func("Grid2D.padded_grid_from", "            pixel_scales=self.mask.pixel_scales,\n            origin=self.mask.origin,\n", "            origin=self.mask.origin,\n            pixel_scales=self.mask.pixel_scales,\n"), None, twin=True),
     Control("mesh box grown by a relative margin (seed C12/4)", "autoarray/structures/mesh/rectangular_2d.py", in_func("Mesh2DRectangular.overlay_grid", "y_min = np.min(grid[:, 0]) - buffer", "y_min = np.min(grid[:, 0]) * (1.0 + buffer)"), "C12.covariance"),
     Control("mesh box centre uses the x extrema for y", "autoarray/structures/mesh/rectangular_2d.py", in_func("Mesh2DRectangular.overlay_grid", "y_max = np.max(grid[:, 0]) + buffer", "y_max = np.max(grid[:, 1]) + buffer"), "C12.covariance"),
+    Control("Hilbert mesh points: origin subtracted instead of added", "autoarray/inversion/pixelization/image_mesh/hilbert.py", in_func("image_and_grid_from", "+ np.array(mask.origin)", "- np.array(mask.origin)"), "C12.kind"),
+    Control("twin: Hilbert mesh points with the origin first", "autoarray/inversion/pixelization/image_mesh/hilbert.py", in_func("image_and_grid_from", "new_grid = grid_hb[grid_hb_radius <= mask_radius] + np.array(mask.origin)", "new_grid = np.asarray(mask.origin) + grid_hb[grid_hb_radius <= mask_radius]"), None, twin=True),
     Control("border relocator sub-grid at origin 0", "autoarray/inversion/pixelization/border_relocator.py", in_func("BorderRelocator.sub_grid", "            origin=self.mask.origin,\n", ""), "C12.forward"),
 ]
